@@ -269,7 +269,7 @@ func (e *sEnv) reload() bool {
 		return false
 	}
 	if err := e.cli.Svc.UpdateAllConfigurer(pcs, vcs); err != nil {
-		e.c.Violation("reload-refused", "UpdateAllConfigurer returned %v", err)
+		viol(e.c, "reload-refused", "UpdateAllConfigurer returned %v", err)
 		return false
 	}
 	e.c.Ev("reload", "names", append([]string(nil), e.names...), "metas", fmt.Sprint(e.metas))
@@ -286,7 +286,7 @@ func (e *sEnv) fail(key, format string, args ...any) {
 		}
 	}
 	e.c.Data["phases"] = ph
-	e.c.Violation(key, format, args...)
+	viol(e.c, key, format, args...)
 }
 
 func (e *sEnv) phase(n string) string { return e.cli.ProxyPhase(n) }
@@ -301,6 +301,7 @@ const (
 )
 
 func scriptedCase(c *h.Case) {
+	begin(c)
 	rng := c.Rng
 	slot, blk, ok := scriptedSlots.get()
 	defer scriptedSlots.put(slot)
